@@ -248,6 +248,30 @@ def main(chk):
                 checks.append(('errno', idx, 0, 'fd_close(live)'))
                 live.discard(fd)
                 closed.append((fd, isdir))
+        # ---- a listed directory that disappears while its descriptor is open: the listing is restarted, then the descriptor is closed
+        removed_dir = False
+        if r.random() < 0.3 and (T + '/sub/deep/') not in preopens and (T + '/sub/deep') not in preopens:
+            g.poke(0x6000, b'sub/deep')
+            g.poke(0x6100, b'\xff\xff\xff\xff')
+            idx = g.call('path_open', [first_fd, 0, 0x6000, 8, 2, (1 << 1), (1 << 1), 0, 0x6100])
+            di = g.dump(0x6100, 4)
+            checks.append(('open', di, (nextfd, frozenset(live)), idx))
+            dfd = nextfd
+            live.add(dfd)
+            nextfd += 1
+            idx = g.call('fd_readdir', [dfd, 0x7000, 512, 0, 0x7800])
+            checks.append(('errno', idx, 0, 'fd_readdir(live)'))
+            idx = g.call('path_remove_directory', [first_fd, 0x6000, 8])
+            checks.append(('errno', idx, 0, 'path_remove_directory(listed directory)'))
+            removed_dir = True
+            for _ in range(r.randint(1, 2)):
+                g.call('fd_readdir', [dfd, 0x7000, 512, 0, 0x7800])   # any errno: the directory is gone; what matters is what follows
+            if r.random() < 0.5:
+                g.call('fd_readdir', [dfd, 0x7000, 512, r.choice([1, 2, 5]), 0x7800])
+            idx = g.call('fd_close', [dfd])
+            checks.append(('errno', idx, 0, 'fd_close(live)'))
+            live.discard(dfd)
+            closed.append((dfd, True))
         # ---- dead-number sweeps
         never = [nextfd, nextfd + 1, 1 << 31, 0xffffffff, r.randint(nextfd + 2, 1 << 30), 0x7fffffff]
         deads = [(fd, 'closed-dir' if isdir else 'closed-file') for fd, isdir in closed] + [(fd, 'never-issued') for fd in r.sample(never, 3)]
@@ -266,6 +290,8 @@ def main(chk):
             checks.append(('errno', idx, 0, 'fd_fdstat_get(live) after sweeps'))
         script = g.script()
         before = snapshot(T)
+        if removed_dir:
+            before.pop('sub/deep', None)
         rr, out = wasih.run_script(exe, d, script, stdin=stdin_bytes)
         after = snapshot(T)
         res = []
